@@ -15,9 +15,9 @@ Definition rDays : rx :=
   RCat (plus cDay) (RCat (lit 32) (RCat (lit 100) (RCat (lit 97) (RCat (lit 121)
     (RCat (RStar (lit 115)) (RCat (lit 44) (RCat (lit 32) rHms))))))).
 
-Lemma shape_hms : rx_td_hms = {| p_body := rHms; p_end := false |}.
+Lemma shape_hms : rx_td_hms = {| p_body := rHms; p_end := false; p_multi := false |}.
 Proof. reflexivity. Qed.
-Lemma shape_days : rx_td_days = {| p_body := rDays; p_end := false |}.
+Lemma shape_days : rx_td_days = {| p_body := rDays; p_end := false; p_multi := false |}.
 Proof. reflexivity. Qed.
 
 (* ---- classes *)
@@ -283,5 +283,5 @@ Qed.
 Theorem timedelta_regexes_lemma s :
   re_match rx_td_hms s = is_some (match_hms s) /\ re_match rx_td_days s = days_scan s.
 Proof.
-  rewrite shape_hms, shape_days. unfold re_match. cbn [p_end p_body]. split; [apply prefix_hms | apply prefix_days].
+  rewrite shape_hms, shape_days. unfold re_match. cbn [p_end p_body p_multi]. split; [apply prefix_hms | apply prefix_days].
 Qed.
